@@ -94,7 +94,8 @@ class _RecCv:
         pass
 
 
-WAYS = ["socket-eof", "peer-disconnect", "protocol-error", "local-close"]
+WAYS = ["socket-eof", "peer-disconnect", "protocol-error", "local-close", "socket-error(errno,strerror)", "socket-error(no-args)",
+        "socket-error(message-only)"]
 
 
 def wakeup_case(server):
@@ -132,6 +133,17 @@ def wakeup_case(server):
             items.append((MSG_DISCONNECT, m.asbytes(), 10))
         elif way == "protocol-error":
             items.append((MSG_CHANNEL_OPEN_SUCCESS, b"\x00\x00\x00", 10))      # truncated: the handler fails
+        elif way.startswith("socket-error"):
+            import socket
+
+            def boom():
+                # what a reset / unreachable peer / foreign socket-like object makes recv() raise inside read_message
+                if way == "socket-error(errno,strerror)":
+                    raise ConnectionResetError(104, "Connection reset by peer")
+                if way == "socket-error(no-args)":
+                    raise socket.error()
+                raise socket.error("Socket is closed")
+            items.append(boom)
         script = L.Script(items)
         t = L.make_transport(server, script, L.make_server_interface([]) if server else None)
         t.sock.close = lambda: setattr(t.sock, "closed", True)
